@@ -103,10 +103,11 @@ Definition fm_intersect (mx my : list path) (ms : list (list path)) : list path 
   normalize out.
 
 (* ---------- numValidPaths / IsValid / Append / New over an abstract schema ---------- *)
-(* A field: its name, whether Kind() is scalar / MessageKind / GroupKind (with
-   the index of the message type in the schema), and [f_rep] = IsList() || IsMap(). *)
+(* A field: its name, its text-format name fd.TextName() (the message name for group-like
+   fields, the field name otherwise), whether Kind() is scalar / MessageKind / GroupKind
+   (with the index of the message type in the schema), and [f_rep] = IsList() || IsMap(). *)
 Inductive fkind := KScalar | KMessage (ref : nat) | KGroup (ref : nat).
-Record field := { f_name : list byte; f_kind : fkind; f_rep : bool }.
+Record field := { f_name : list byte; f_text : list byte; f_kind : fkind; f_rep : bool }.
 Record msgtype := { m_name : list byte; m_fields : list field }.
 Definition schema := list msgtype.
 
@@ -124,27 +125,19 @@ Definition lower_byte (b : byte) : byte :=
   let n := b2n b in if (65 <=? n) && (n <=? 90) then n2b (n + 32) else b.
 Definition lower (s : list byte) : list byte := map lower_byte s.
 
-Definition msg_name_is (sc : schema) (r : nat) (seg : list byte) : bool :=
-  match nth_error sc r with Some m => bytes_eqb (m_name m) seg | None => false end.
-
-(* the closure passed to rangeFields: which field does segment [seg] select in message [md] *)
+(* the closure passed to rangeFields: which field does segment [seg] select in message [md]
+     fd := ByName(field)
+     if fd == nil { gd := ByName(ToLower(field)); if gd != nil && gd.TextName() == field { fd = gd } }
+     else if fd.TextName() != field { fd = nil } *)
 Definition lookup_seg (sc : schema) (md : nat) (seg : list byte) : option field :=
   match nth_error sc md with
   | None => None
   | Some m =>
     match by_name (m_fields m) seg with
-    | Some fd =>
-      match f_kind fd with
-      | KGroup r => if msg_name_is sc r seg then Some fd else None
-      | _ => Some fd
-      end
+    | Some fd => if bytes_eqb (f_text fd) seg then Some fd else None
     | None =>
       match by_name (m_fields m) (lower seg) with
-      | Some gd =>
-        match f_kind gd with
-        | KGroup r => if msg_name_is sc r seg then Some gd else None
-        | _ => None
-        end
+      | Some gd => if bytes_eqb (f_text gd) seg then Some gd else None
       | None => None
       end
     end
